@@ -461,7 +461,9 @@ impl World {
                             let oc = op["outcome"].as_str().unwrap_or("failed");
                             let inv = num(&op["inv"], 1);
                             self.sim.pay_groups += 1;
-                            if oc.starts_with("error") {
+                            if oc == "error:none" {
+                                json!({"error": {"message": "no response from lightningd"}})
+                            } else if oc.starts_with("error") {
                                 let code: i64 = oc.split(':').nth(1).and_then(|x| x.parse().ok()).unwrap_or(210);
                                 json!({"error": {"code": code, "message": "pay failed"}})
                             } else {
@@ -471,6 +473,8 @@ impl World {
                                     "parts": 1, "amount_msat": 0, "amount_sent_msat": 0, "status": status});
                                 if oc == "failed_warning" {
                                     r["warning_partial_completion"] = json!("partial");
+                                } else if oc == "failed_warning_empty" {
+                                    r["warning_partial_completion"] = json!("");
                                 }
                                 json!({"result": r})
                             }
@@ -479,7 +483,8 @@ impl World {
                     }
                 };
                 self.note(json!({"event": "rpc", "method": method, "params": params, "answer": body,
-                    "held": self.unanswered(), "parts": self.sim.parts.iter().map(|p| json!([p.id, p.status])).collect::<Vec<_>>(),
+                    "held": self.unanswered(), "parts": self.sim.parts.iter().map(|p| json!([p.id, p.status, p.groupid])).collect::<Vec<_>>(),
+                    "own_group": if method == "pay" { json!(100 + self.sim.pay_groups - 1) } else { Value::Null },
                     "state_records": self.state_records()}));
                 self.node.answer(call, body).await;
                 for _ in 0..3 {
@@ -551,7 +556,8 @@ pub fn run(input: &Value) -> Value {
         while let Some(c) = w.node.take("") {
             let method = if c.method == "getinfo" { "get_info".to_string() } else { c.method.clone() };
             let ev = json!({"event": "rpc", "method": method, "params": c.params, "answer": Value::Null, "held": w.unanswered(),
-                "parts": w.sim.parts.iter().map(|p| json!([p.id, p.status])).collect::<Vec<_>>(), "state_records": w.state_records()});
+                "parts": w.sim.parts.iter().map(|p| json!([p.id, p.status, p.groupid])).collect::<Vec<_>>(),
+                "own_group": if method == "pay" { json!(100 + w.sim.pay_groups) } else { Value::Null }, "state_records": w.state_records()});
             w.trace.lock().unwrap().push(ev);
             drop(c);
         }
